@@ -228,7 +228,9 @@ func runZoneProvenance(c *Ctx) {
 	p := c.P
 	fns := realtimeFns(c)
 	b := newBinder(c)
-	zoneOK := func(z ssa.Value, fn *ssa.Function) (bool, string) {
+	var zoneOKd func(z ssa.Value, fn *ssa.Function, d int) (bool, string)
+	zoneOK := func(z ssa.Value, fn *ssa.Function) (bool, string) { return zoneOKd(z, fn, 0) }
+	zoneOKd = func(z ssa.Value, fn *ssa.Function, d int) (bool, string) {
 		expr := b.bind(z)
 		if b.headClass(expr) == clsZone {
 			return true, expr
@@ -251,9 +253,19 @@ func runZoneProvenance(c *Ctx) {
 			}
 			for _, e := range callers {
 				args := e.Site.Common().Args
-				if idx >= len(args) || b.headClass(b.bind(args[idx])) != clsZone {
-					return false, "caller " + shortName(e.Caller) + " passes " + clip(b.bind(args[idx]), 80)
+				if idx >= len(args) {
+					return false, "caller " + shortName(e.Caller) + " passes nothing"
 				}
+				if b.headClass(b.bind(args[idx])) == clsZone {
+					continue
+				}
+				// handed down through the caller's own parameter
+				if _, isPrm := args[idx].(*ssa.Parameter); isPrm && d < 3 && e.Caller != nil {
+					if ok, _ := zoneOKd(args[idx], e.Caller, d+1); ok {
+						continue
+					}
+				}
+				return false, "caller " + shortName(e.Caller) + " passes " + clip(b.bind(args[idx]), 80)
 			}
 			return true, "parameter fed with timezoneOrUTC() by every caller"
 		}
@@ -490,7 +502,7 @@ func runUnits(c *Ctx) {
 		c.Check(ok, "UNITS", shortName(f), "YYYYMMDD start date at local midnight", p.pos(f.Pos()), "time.Date(year=group1, month=group2, day=group3, 0, 0, 0, 0, zone)", "start date is not built as midnight of (group1, group2, group3): "+why)
 	}
 	if f := c.anchor("gtfs:parseDirectionID_GTFSRealtime"); f != nil {
-		tb, err := extractTable(f)
+		tb, err := c.extractTableComposed(f, 0)
 		ok := err == nil
 		var probs []string
 		if ok {
@@ -538,7 +550,10 @@ func runUnits(c *Ctx) {
 func checkNilPreserving(c *Ctx, f *ssa.Function) {
 	p := c.P
 	fname := shortName(f)
-	tb, err := extractTableCut(f)
+	tb, err := c.extractTableComposed(f, 0) // the decision may sit in a (value, ok) helper
+	if err != nil {
+		tb, err = extractTableCut(f)
+	}
 	if err != nil {
 		c.Undecided("UNITS", fname, "absent stays absent", p.pos(f.Pos()), err.Error())
 		return
